@@ -1417,10 +1417,13 @@ impl<'a> World<'a> {
                 }
                 if mech == Mech::LongTerm && rng.chance(p.p_srv_hostile, 1000) {
                     parts.push(format!(
-                        "lt={} hostile={}{}",
-                        *rng.pick(&["401", "401", "438"]),
-                        rng.below(40),
-                        if rng.chance(1, 4) { " hrealm" } else { "" }
+                        "lt={} hostile={}{}{}",
+                        *rng.pick(&["401", "401", "438", "438"]),
+                        // (half of the time one of the over-long values between the encode and decode limits)
+                        if rng.chance(1, 2) { *rng.pick(&[12u64, 14, 15, 16]) } else { rng.below(40) },
+                        if rng.chance(1, 4) { " hrealm" } else { "" },
+                        // now and then such a reply is correctly protected under the session key
+                        if rng.chance(1, 3) { " integ=auto" } else { "" }
                     ));
                 }
                 if rng.chance(p.p_srv_more, 1000) {
